@@ -2,6 +2,58 @@ import RedisGoModel.Props.C16TornG
 /-! C16: `wal.Repair` after a torn tail, for segment files with nil-`Data` records, and the repaired file read as the
     last file of a chain (the decoder arrives with the previous segment's rolling CRC, while `Repair` itself reads the
     file alone). Generalises `repair_torn_tail_partial`. -/
+namespace WalTorn
+variable {ρ σ : Type}
+
+/-- less fuel, but still more than the records returned: nothing changes -/
+theorem decode_fuel_down (C : Codec ρ σ) (f : File) (size : Nat) :
+    ∀ (k m o : Nat) (st : σ), (decode C f size k o st).1.length < m → m ≤ k →
+      decode C f size m o st = decode C f size k o st := by
+  intro k
+  induction k with
+  | zero => intro m o st h1 h2; have : m = 0 := by omega
+            subst this; rfl
+  | succ k ih =>
+    intro m o st hlt hle
+    obtain ⟨m', hm'⟩ : ∃ m', m = m' + 1 := ⟨m - 1, by omega⟩
+    subst hm'
+    by_cases h1 : size ≤ o
+    · rw [decode_eof_size C f size m' o st h1, decode_eof_size C f size k o st h1]
+    · by_cases h2 : size < o + 8
+      · rw [decode_short_hdr C f size m' o st (by omega) h2, decode_short_hdr C f size k o st (by omega) h2]
+      · cases hu : C.unhdr (readAt f o 8) with
+        | none => rw [decode_zero C f size m' o st (by omega) hu, decode_zero C f size k o st (by omega) hu]
+        | some n =>
+          by_cases h3 : size < n + o
+          · rw [decode_max C f size m' o st (by omega) n hu h3, decode_max C f size k o st (by omega) n hu h3]
+          · by_cases h4 : size < o + 8 + n
+            · rw [decode_short_body C f size m' o st (by omega) n hu (by omega) h4,
+                decode_short_body C f size k o st (by omega) n hu (by omega) h4]
+            · cases hv : C.valid st (readAt f o 8) (readAt f (o + 8) n) with
+              | ok r st' =>
+                rw [decode_ok C f size k o st n hu (by omega) r st' hv] at hlt
+                simp only [List.length_cons] at hlt
+                rw [decode_ok C f size m' o st n hu (by omega) r st' hv,
+                  decode_ok C f size k o st n hu (by omega) r st' hv, ih m' (o + 8 + n) st' (by omega) (by omega)]
+              | fatal =>
+                rw [decode_fatal C f size m' o st n hu (by omega) hv, decode_fatal C f size k o st n hu (by omega) hv]
+              | bad =>
+                by_cases ht : isTorn (o + 8) (readAt f (o + 8) n)
+                · rw [(decode_bad C f size m' o st n hu (by omega) hv).1 ht,
+                    (decode_bad C f size k o st n hu (by omega) hv).1 ht]
+                · rw [(decode_bad C f size m' o st n hu (by omega) hv).2 ht,
+                    (decode_bad C f size k o st n hu (by omega) hv).2 ht]
+
+/-- any fuel above the number of records returned gives the same result -/
+theorem decode_fuel_any (C : Codec ρ σ) (f : File) (size k o : Nat) (st : σ)
+    (h : (decode C f size k o st).1.length < k) (m : Nat) (hm : (decode C f size k o st).1.length < m) :
+    decode C f size m o st = decode C f size k o st := by
+  by_cases hle : m ≤ k
+  · exact decode_fuel_down C f size k m o st hm hle
+  · exact decode_fuel_stable C f size k o st h m (by omega)
+
+end WalTorn
+
 namespace WalTornC
 open WalCodec WalFile WalTorn
 
@@ -32,7 +84,8 @@ theorem repair_torn_tail_gpartial (c0 : Nat) (hc0 : c0 < 2 ^ 32) (synced unsynce
     (hnc : GNoCollision (endOff (gfileFrames c0 synced) 0) (gCrcAfter c0 synced) unsynced)
     (hsize : endOff (gfileFrames c0 (synced ++ unsynced)) 0 + 8 ≤ f.length) :
     ∃ p rest, unsynced = p ++ rest ∧ (repair f).1 = true ∧
-      ∀ st0, (st0 = 0 ∨ st0 = c0) → ∀ fuel, synced.length + unsynced.length + 1 < fuel →
+      endOff (gfileFrames c0 (synced ++ p)) 0 ≤ (repair f).2.length ∧
+      ∀ st0, (st0 = 0 ∨ st0 = c0) → ∀ fuel, synced.length + p.length + 1 < fuel →
         (recLoop fuel (decAt (repair f).2 0 st0)).1 = crcRec c0 :: gRecords c0 (synced ++ p) ∧
         (recLoop fuel (decAt (repair f).2 0 st0)).2.1 = .decEof := by
   have hall : GItemsOk (synced ++ unsynced) := by
@@ -58,28 +111,40 @@ theorem repair_torn_tail_gpartial (c0 : Nat) (hc0 : c0 < 2 ^ 32) (synced unsynce
   generalize hD : decode walCodec (fileFn f) f.length (synced.length + unsynced.length + 2) 0 0 = D at h2 h3 h4
   have hDlen : D.1.length < synced.length + unsynced.length + 2 := by
     rw [h2, List.length_cons, gRecords_length, List.length_append, h1, List.length_append]; omega
-  have hstable : ∀ m, synced.length + unsynced.length + 2 ≤ m → decode walCodec (fileFn f) f.length m 0 0 = D := by
+  have hDlen' : D.1.length = synced.length + p.length + 1 := by
+    rw [h2, List.length_cons, gRecords_length, List.length_append]
+  have hstable : ∀ m, synced.length + p.length + 1 < m → decode walCodec (fileFn f) f.length m 0 0 = D := by
     intro m hm
     rw [← hD]
-    exact decode_fuel_stable walCodec (fileFn f) f.length _ 0 0 (by rw [hD]; exact hDlen) m hm
+    exact decode_fuel_any walCodec (fileFn f) f.length _ 0 0 (by rw [hD]; exact hDlen) m (by rw [hD, hDlen']; exact hm)
   have hfuelR : synced.length + unsynced.length + 2 ≤ f.length / 8 + 2 := by
     have := endOff_ge (gfileFrames c0 (synced ++ unsynced)) 0 hwfall
     rw [gfileFrames_length, List.length_append] at this
     omega
   obtain ⟨s1, s2, s3⟩ := recLoop_sim f (f.length / 8 + 2) 0 0
-  rw [decAt_zero, hstable _ hfuelR] at s1 s2 s3
+  have hpl : p.length ≤ unsynced.length := by rw [h1, List.length_append]; omega
+  rw [decAt_zero, hstable _ (by omega)] at s1 s2 s3
   -- the end offset is at least the synced end
   have hT16 : 8 + (frameOf (crcRec c0)).body.length ≤ D.2.2 := by
     rw [h4]
     simp only [gfileFrames, endOff]
     have := endOff_mono (gframesOf c0 (synced ++ p)) (0 + 8 + (frameOf (crcRec c0)).body.length)
     omega
+  have hTle : D.2.2 ≤ f.length := by
+    rw [h4]
+    have e : gfileFrames c0 (synced ++ unsynced) =
+        gfileFrames c0 (synced ++ p) ++ gframesOf (gCrcAfter c0 (synced ++ p)) rest := by
+      rw [h1, ← List.append_assoc]
+      simp only [gfileFrames, gframesOf_append, List.cons_append]
+    have := endOff_mono (gframesOf (gCrcAfter c0 (synced ++ p)) rest) (endOff (gfileFrames c0 (synced ++ p)) 0)
+    rw [← endOff_append, ← e] at this
+    omega
   refine ⟨p, rest, h1, ?_⟩
   rcases h3 with he | he
   · -- clean EOF: nothing to repair
     have hrep : repair f = (true, f) := by rw [repair_eq, (s2 he).1]
     rw [hrep]
-    refine ⟨rfl, ?_⟩
+    refine ⟨rfl, by rw [← h4]; exact hTle, ?_⟩
     intro st0 hst fuel hf
     obtain ⟨k, hk⟩ : ∃ k, fuel = k + 1 := ⟨fuel - 1, by omega⟩
     have hflen : 8 + (frameOf (crcRec c0)).body.length ≤ f.length := by
@@ -98,25 +163,16 @@ theorem repair_torn_tail_gpartial (c0 : Nat) (hc0 : c0 < 2 ^ 32) (synced unsynce
     have hrep : repair f = (true, f.take D.2.2) := by
       rw [repair_eq, (s3 he).1]; simp only [if_true]; rw [(s3 he).2]
     rw [hrep]
-    refine ⟨rfl, ?_⟩
+    have hlen' : (f.take D.2.2).length = D.2.2 := by rw [List.length_take]; omega
+    refine ⟨rfl, by rw [← h4]; simp only [hlen']; exact Nat.le_refl _, ?_⟩
     intro st0 hst fuel hf
     obtain ⟨k, hk⟩ : ∃ k, fuel = k + 1 := ⟨fuel - 1, by omega⟩
-    have hTle : D.2.2 ≤ f.length := by
-      rw [h4]
-      have e : gfileFrames c0 (synced ++ unsynced) =
-          gfileFrames c0 (synced ++ p) ++ gframesOf (gCrcAfter c0 (synced ++ p)) rest := by
-        rw [h1, ← List.append_assoc]
-        simp only [gfileFrames, gframesOf_append, List.cons_append]
-      have := endOff_mono (gframesOf (gCrcAfter c0 (synced ++ p)) rest) (endOff (gfileFrames c0 (synced ++ p)) 0)
-      rw [← endOff_append, ← e] at this
-      omega
-    have hlen' : (f.take D.2.2).length = D.2.2 := by rw [List.length_take]; omega
     have htr := decode_truncate walCodec (fileFn f) f.length (synced.length + unsynced.length + 2) 0 0
       (by rw [hD]; exact Or.inr he)
     rw [hD] at htr
     have hst2 : decode walCodec (fileFn f) D.2.2 fuel 0 0 = (D.1, .eof, D.2.2) := by
       rw [← htr]
-      exact decode_fuel_stable walCodec (fileFn f) D.2.2 _ 0 0 (by rw [htr]; exact hDlen) fuel (by omega)
+      exact decode_fuel_any walCodec (fileFn f) D.2.2 _ 0 0 (by rw [htr]; exact hDlen) fuel (by rw [htr, hDlen']; exact hf)
     have hst3 : decode walCodec (fileFn f) D.2.2 fuel 0 st0 = (D.1, .eof, D.2.2) := by
       rcases hst with rfl | rfl
       · exact hst2
